@@ -27,6 +27,7 @@ from .report import Report
 from .srcindex import AnalysisError, Index
 
 MAX_PER_FUNCTION = 40
+MAX_TOTAL = 60  # the probe only reports; its size is bounded so that the thorough tier stays within a few minutes
 FLIP = {ast.Eq: ast.NotEq, ast.NotEq: ast.Eq, ast.Lt: ast.LtE, ast.LtE: ast.Lt, ast.Gt: ast.GtE, ast.GtE: ast.Gt, ast.Is: ast.IsNot, ast.IsNot: ast.Is, ast.In: ast.NotIn, ast.NotIn: ast.In}
 
 
@@ -138,6 +139,12 @@ def probe(prop: str, mod, idx: Index, rep: Report) -> None:
     tot = rep_n = und = 0
     silent: list[str] = []
     per_fn = {}
+    n_all = 0
+    for relpath, qual in accessed:
+        mi = idx.by_relpath.get(relpath)
+        if mi is not None and qual in mi.functions:
+            n_all += min(len(_sites(mi.functions[qual].raw_node)), MAX_PER_FUNCTION)
+    scale = min(1.0, MAX_TOTAL / n_all) if n_all else 1.0
     for relpath, qual in accessed:
         mi = idx.by_relpath.get(relpath)
         if mi is None or qual not in mi.functions:
@@ -147,6 +154,8 @@ def probe(prop: str, mod, idx: Index, rep: Report) -> None:
         sites = _sites(orig)
         if len(sites) > MAX_PER_FUNCTION:
             sites = rng.sample(sites, MAX_PER_FUNCTION)
+        if scale < 1.0 and len(sites) > 2:
+            sites = rng.sample(sites, max(2, round(len(sites) * scale)))
         k = v = 0
         for kind, path in sites:
             m = mutate(orig, kind, path)
